@@ -305,7 +305,7 @@ func (w *world) addDev(d *dev) {
 // ---------------------------------------------------------------- generators
 
 var fieldNames = []string{"PublicKey", "Latitude", "Longitude", "Capacity", "Debt", "Expiration", "Initialization", "ProtocolFee"}
-var badSigners = []string{"unsigned", "garbage", "temp", "server", "device", "foreignGCA", "wrongprefix", "bitflip", "keepsig"}
+var badSigners = []string{"unsigned", "garbage", "temp", "server", "device", "foreignGCA", "wrongprefix", "bitflip", "keepsig", "twin"}
 
 func (w *world) float() float64 {
 	rng := w.rng
@@ -966,6 +966,12 @@ func (w *world) badSign(a refenc.Auth, signer string) refenc.Auth {
 			sb = append([]byte("EquipmentReport"), sb...)
 		}
 		a.Sig = refenc.Sign(w.GCA.Priv, sb)
+	case "twin": // the algebraic twin (r, N-s) of the GCA's genuine signature over exactly this content: anybody can
+		// compute it from a published authorization; it is not a signature the GCA made
+		if !refenc.Verify(w.GCA.Pub, a.SigningBytes(), a.Sig) {
+			a = a.Signed(w.GCA.Priv)
+		}
+		a.Sig = refenc.TwinSig(a.Sig)
 	case "keepsig": // whatever signature the authorization carries already (the registered one's, over other content)
 	case "bitflip": // valid signature, one content bit flipped afterwards
 		a = a.Signed(w.GCA.Priv)
